@@ -401,3 +401,6 @@ def de_raises(ctx, st, exc):
 
 UNITS.append(Unit("C17", "jsonargparse._core:ArgumentParser.default_env", de_setup, de_post, de_raises, label="setter", expect_cover=("return", "raise:ValueError"),
                   trusted=["assigning subparser.default_env runs this same setter on the sub-parser (induction over the depth of the subcommand tree)"]))
+
+from contracts.share import carried as _carried  # noqa: E402
+UNITS += _carried("C17")
